@@ -110,6 +110,7 @@ type pathExec struct {
 	freshN          int
 	timeVars        []*smt.Term
 	strTab          map[string]value
+	floatStrings    map[string][2]*smt.Term
 }
 
 func (px *pathExec) freshVar(name string, s smt.Sort) *smt.Term {
@@ -326,6 +327,12 @@ func (fr *frame) concretizeDeep(v value, tag string) value {
 	switch v := v.(type) {
 	case SymInt, SymBool:
 		return fr.concretize(v, tag)
+	case SymString:
+		bs := make([]value, len(v.B))
+		for i := range v.B {
+			bs[i] = fr.concretize(v.B[i], tag)
+		}
+		return mkString(bs)
 	case structure:
 		a := make(structure, len(v))
 		for i := range v {
@@ -705,7 +712,7 @@ type pathOutcome struct {
 func (e *Env) runPath(h *HarnessRun, solver *smt.Solver, prefix []Decision) (px *pathExec) {
 	px = &pathExec{ctx: smt.NewCtx(), solver: solver, h: h, prefix: prefix, maxSteps: e.MaxSteps, unwind: e.Unwind,
 		nameCount: map[string]int{}, asserts: map[string]*AssertStat{}, funcs: map[*ssa.Function]struct{}{},
-		havocKernels: map[string]int{}, strTab: map[string]value{}}
+		havocKernels: map[string]int{}, strTab: map[string]value{}, floatStrings: map[string][2]*smt.Term{}}
 	i := &interpreter{prog: e.Prog, globals: map[*ssa.Global]*value{}, initState: map[*ssa.Package]int{}, px: px, env: e}
 	if rt := e.Prog.ImportedPackage("runtime"); rt != nil {
 		i.runtimeErrorString = rt.Type("errorString").Object().Type()
@@ -840,6 +847,17 @@ func renderObserved(px *pathExec, v value, memo map[*smt.Term]uint64) (string, b
 		return fmt.Sprintf("%v", v), true
 	case string:
 		return fmt.Sprintf("%q", v), true
+	case SymString:
+		buf := make([]byte, len(v.B))
+		for i, b := range v.B {
+			switch b := b.(type) {
+			case uint8:
+				buf[i] = b
+			case SymInt:
+				buf[i] = byte(smt.Eval(b.T, px.model, memo))
+			}
+		}
+		return fmt.Sprintf("%q", string(buf)), true
 	case float64:
 		return fmtFloat(v), true
 	case float32:
